@@ -15,6 +15,12 @@
 //!   run <tape>                                    -> outs=<msgs>|<msgs>.. calls=<log> | panic
 //!   inline <kind> <tape> a=.. [b=..] [go=..] [oo=..]  -> out=<batch> calls=<log> | panic   (in-tick order hooks)
 //!   enum <kind> <force> [q=..] [q2=..] [m=..] [m2=..]  -> n=<executions> set=<sorted outcomes>   (C37)
+//!   enumrun                                       -> n=<executions> set=<sorted decision vectors>   (C37: the real
+//!                                                    run_hooks on copies of the current tick under bolero's exhaustive driver)
+//!   xrun <tape>                                   -> vec=<decision vector> calls=<log> ev=<hook calls> | panic
+//!                                                    (run_hooks on a copy of the current tick; the state is left as it is)
+//! `run` also answers `ev=<hook calls>`: `a<i>:<force>:<nt>` = hooks[i].autonomous_decision(force) returned nt,
+//! `r<i>` = hooks[i].release_decision, in call order (observed through a recording SimHook wrapper).
 mod drv;
 mod hooks;
 
@@ -104,6 +110,8 @@ enum Op {
     Run { tape: Vec<u64> },
     Inline { kind: InlineKind, tape: Vec<u64>, a: Vec<V>, b: Vec<V>, ap: Vec<(K, V)>, bp: Vec<(K, V)> },
     Enum { kind: Kind, force: bool, q: Vec<V>, q2: Vec<V>, m: KMapData, m2: KMapData },
+    EnumRun,
+    XRun { tape: Vec<u64> },
     Bad(String),
 }
 
@@ -181,6 +189,8 @@ fn parse_op(line: &str) -> Op {
         ["canrun"] => Op::CanRun,
         ["inline", kind, tape, rest @ ..] => parse_inline(kind, tape, rest).unwrap_or_else(bad),
         ["run", t] => parse_list::<u64>(t, ',').map(|tape| Op::Run { tape }).unwrap_or_else(bad),
+        ["xrun", t] => parse_list::<u64>(t, ',').map(|tape| Op::XRun { tape }).unwrap_or_else(bad),
+        ["enumrun"] => Op::EnumRun,
         ["enum", kind, f, rest @ ..] => match (Kind::parse(kind), *f, kv_args(rest)) {
             (Some(kind), "0" | "1", Some((q, q2, m, m2))) => Op::Enum { kind, force: *f == "1", q, q2, m, m2 },
             _ => bad(),
@@ -209,10 +219,17 @@ struct Slot {
 }
 
 struct Case {
+    /// the real hooks, each behind a recording [`Spy`]
     hooks: Vec<Box<dyn SimHook>>,
     slots: Vec<Slot>,
     dead: bool,
     dfir: Option<dfir_rs::scheduled::context::DfirErased>,
+    /// calls made on the hooks (cleared before every `run_hooks`)
+    ev: EvLog,
+    /// the state-changing ops performed so far: replaying them on fresh hooks rebuilds this tick
+    setup: Vec<Op>,
+    /// the choice tapes of the executions of the last `enumrun`
+    tapes: Vec<Vec<u64>>,
 }
 
 fn snap(h: &Handle) -> Snap {
@@ -477,7 +494,17 @@ fn oracle_release(rec: &mut Recorder, slot: &mut Slot, pre: &Snap, out: &[Msg], 
 
 impl Case {
     fn new() -> Case {
-        Case { hooks: vec![], slots: vec![], dead: false, dfir: None }
+        Case { hooks: vec![], slots: vec![], dead: false, dfir: None, ev: Default::default(), setup: vec![], tapes: vec![] }
+    }
+
+    /// a copy of this tick on fresh real hooks: the state-changing ops replayed from the start
+    fn fresh(&self) -> Case {
+        let mut c = Case::new();
+        let mut scratch = Recorder::new("");
+        for op in &self.setup {
+            c.exec(op, &mut scratch);
+        }
+        c
     }
 
     fn can_release(&self, i: usize) -> bool {
@@ -505,6 +532,9 @@ impl Case {
         }
         let n = self.hooks.len();
         let oob = |i: usize| i >= n;
+        if matches!(op, Op::New { .. } | Op::Push { .. } | Op::Set { .. } | Op::Auto { .. } | Op::Rel(_) | Op::Run { .. }) {
+            self.setup.push(op.clone());
+        }
         Some(match op {
             Op::Bad(l) => (l.clone(), "bad-op".into()),
             Op::New { kind, q, q2, m, m2 } => {
@@ -516,7 +546,7 @@ impl Case {
                     (true, false) => format!("new {} m={}", kind.name(), fmt_map(&s.m)),
                     (true, true) => format!("new {} m={} m2={}", kind.name(), fmt_map(&s.m), fmt_map(&s.m2)),
                 };
-                self.hooks.push(hook);
+                self.hooks.push(Box::new(Spy { i: self.hooks.len(), inner: hook, ev: self.ev.clone() }));
                 self.slots.push(Slot { h, pre: None, last: None, last_k: BTreeMap::new() });
                 rec.count(&format!("new:{}", kind.name()));
                 (line, "ok".into())
@@ -686,6 +716,7 @@ impl Case {
                     }
                 }
                 let (t, log) = drv::Tape::new(tape.clone());
+                self.ev.borrow_mut().clear();
                 let hooks = &mut self.hooks;
                 let r = catch(AssertUnwindSafe(|| {
                     scope::with(Box::new(t), || verif_hooks::run_hooks_on(hooks));
@@ -722,7 +753,7 @@ impl Case {
                         if any_nt {
                             rec.nontrivial();
                         }
-                        (line, format!("outs={} calls={}", outs.join("|"), fmt_calls(&log.borrow())))
+                        (line, format!("outs={} calls={} ev={}", outs.join("|"), fmt_calls(&log.borrow()), fmt_evs(&self.ev.borrow())))
                     }
                     Err(e) => {
                         self.dead = true;
@@ -827,8 +858,372 @@ impl Case {
                 rec.count(&format!("enum:{}", kind.name()));
                 (line, enum_outcomes(rec, *kind, *force, &s0))
             }
+            Op::XRun { tape } => {
+                let line = format!("xrun {}", fmt_tape(tape));
+                rec.count(&format!("xrun:hooks={n}"));
+                let before = self.tick_before();
+                let mut c = self.fresh();
+                let (t, log) = drv::Tape::new(tape.clone());
+                c.ev.borrow_mut().clear();
+                let hooks = &mut c.hooks;
+                let (_, r) = scope::with(Box::new(t), || catch(AssertUnwindSafe(|| verif_hooks::run_hooks_on(hooks))));
+                match r {
+                    Ok(()) => {
+                        let evs = c.ev.borrow().clone();
+                        check_call_sequence(rec, &before, &evs, &line);
+                        let comps = c.components(&before, &evs);
+                        if comps.iter().any(|c| c.0) {
+                            rec.nontrivial();
+                        }
+                        let vec = comps.iter().map(|c| c.1.clone()).collect::<Vec<_>>().join("|");
+                        (line, format!("vec={vec} calls={} ev={}", fmt_calls(&log.borrow()), fmt_evs(&evs)))
+                    }
+                    Err(e) => {
+                        rec.check(!before.well_formed(), "panic@run_hooks", &format!("{line}: {e}"));
+                        rec.count("panic");
+                        (line, "panic".into())
+                    }
+                }
+            }
+            Op::EnumRun => ("enumrun".into(), self.enum_run(rec)),
         })
     }
+
+    /// what the scheduler sees of the tick right before `run_hooks`
+    fn tick_before(&self) -> Before {
+        let n = self.hooks.len();
+        Before {
+            cur: (0..n).map(|i| self.hooks[i].current_decision()).collect(),
+            can: (0..n).map(|i| self.hooks[i].can_make_nontrivial_decision()).collect(),
+            ready: (0..n).map(|i| self.hooks[i].is_ready()).collect(),
+            ks_ok: (0..n).all(|i| self.slots[i].h.kind != Kind::KeyedSingleton || keyed_singleton_wf(&self.slots[i])),
+        }
+    }
+
+    /// per hook `(non-trivial, "nt/released/remaining")` after a `run_hooks` call on this (fresh) tick
+    fn components(&mut self, before: &Before, evs: &[Ev]) -> Vec<(bool, String)> {
+        (0..self.hooks.len())
+            .map(|i| {
+                let out = self.slots[i].h.out.drain();
+                let post = snap(&self.slots[i].h);
+                let nt = evs
+                    .iter()
+                    .find_map(|e| match e {
+                        Ev::Auto(j, _, nt) if *j == i => Some(*nt),
+                        _ => None,
+                    })
+                    .unwrap_or(before.cur[i].unwrap_or(false));
+                (nt, comp_str(self.slots[i].h.kind, nt, &out, &post))
+            })
+            .collect()
+    }
+
+    /// C37 on a whole tick: run the REAL `run_hooks` on copies of the current tick under bolero's real
+    /// exhaustive driver until the driver reports the space exhausted; the set of decision vectors
+    /// reached is the answer (diffed against the model's search) and is compared here with the
+    /// independent oracle: every vector of per-hook allowed decisions with a non-trivial component.
+    fn enum_run(&mut self, rec: &mut Recorder) -> String {
+        let n_hooks = self.hooks.len();
+        rec.count(&format!("enumrun:hooks={n_hooks}"));
+        let before = self.tick_before();
+        let mut drv = Box::new(drv::LogDrv::new(Object(exhaustive::Driver::default())));
+        let mut reached: std::collections::BTreeSet<String> = Default::default();
+        let mut reached_comps: Vec<Vec<(bool, String)>> = vec![];
+        let mut tapes = vec![];
+        let mut n = 0u64;
+        let mut panics = 0u64;
+        while drv.inner.0.step().is_continue() {
+            n += 1;
+            if n > 20_000 {
+                return "too-many".into();
+            }
+            drv.reset();
+            let mut c = self.fresh();
+            c.ev.borrow_mut().clear();
+            let hooks = &mut c.hooks;
+            let (d, r) = scope::with(drv, || catch(AssertUnwindSafe(|| verif_hooks::run_hooks_on(hooks))));
+            drv = d;
+            tapes.push(drv.tape.clone());
+            match r {
+                Ok(()) => {
+                    let evs = c.ev.borrow().clone();
+                    check_call_sequence(rec, &before, &evs, &format!("enumrun tape {}", fmt_tape(&drv.tape)));
+                    let comps = c.components(&before, &evs);
+                    let vec = comps.iter().map(|c| c.1.clone()).collect::<Vec<_>>().join("|");
+                    if reached.insert(vec) {
+                        reached_comps.push(comps);
+                    }
+                }
+                Err(e) => {
+                    panics += 1;
+                    rec.check(!before.well_formed(), "panic@run_hooks", &format!("enumrun tape {}: {e}", fmt_tape(&drv.tape)));
+                    reached.insert("panic".into());
+                }
+            }
+        }
+        self.tapes = tapes;
+        rec.count_n("enumrun:executions", n);
+        rec.count_n("enumrun:distinct-vectors", reached.len() as u64);
+        if reached.len() > 1 {
+            rec.nontrivial();
+        }
+        if !(before.well_formed() && panics == 0) {
+            rec.count("enumrun:oracle-skipped(tick-not-runnable)");
+        }
+        if before.well_formed() && panics == 0 {
+            // the oracle: per-hook decision spaces written against the property (every prefix, every
+            // sub-multiset, every per-key combination, every buffered version / the unchanged snapshot);
+            // the TopLevel* hooks' spaces are taken from the real hook run alone, unforced
+            let spaces: Vec<Vec<(bool, String)>> = (0..n_hooks)
+                .map(|i| {
+                    if before.cur[i].is_some() {
+                        // already decided before run_hooks: that decision, whatever it is
+                        let mut cs: Vec<(bool, String)> = reached_comps.iter().map(|c| c[i].clone()).collect();
+                        cs.sort();
+                        cs.dedup();
+                        rec.check(cs.len() == 1, "pending-decision-changed@run_hooks", &format!("hook {i}: {cs:?}"));
+                        cs
+                    } else {
+                        let slot = &self.slots[i];
+                        spec_space(slot.h.kind, &snap(&slot.h), slot.last, &slot.last_k).unwrap_or_else(|| self.real_space(i))
+                    }
+                })
+                .collect();
+            let mut expected: std::collections::BTreeSet<String> = Default::default();
+            let mut idx = vec![0usize; n_hooks];
+            let comparable = spaces.iter().all(|s| !s.is_empty()) && spaces.iter().map(|s| s.len() as u64).product::<u64>() <= 200_000;
+            rec.count(if comparable { "enumrun:oracle-compared" } else { "enumrun:oracle-skipped(space-unknown)" });
+            if comparable {
+                'outer: loop {
+                    let pick: Vec<&(bool, String)> = (0..n_hooks).map(|i| &spaces[i][idx[i]]).collect();
+                    if pick.iter().any(|c| c.0) {
+                        expected.insert(pick.iter().map(|c| c.1.clone()).collect::<Vec<_>>().join("|"));
+                    }
+                    let mut k = n_hooks;
+                    loop {
+                        if k == 0 {
+                            break 'outer;
+                        }
+                        k -= 1;
+                        idx[k] += 1;
+                        if idx[k] < spaces[k].len() {
+                            break;
+                        }
+                        idx[k] = 0;
+                    }
+                }
+                rec.count_n("enumrun:expected-vectors", expected.len() as u64);
+                let missing: Vec<&String> = expected.difference(&reached).collect();
+                rec.check(
+                    missing.is_empty(),
+                    "schedule-not-explored@run_hooks",
+                    &format!("{} of {} decision vectors with a non-trivial component are never reached, e.g. {}", missing.len(), expected.len(), missing.first().map(|s| s.as_str()).unwrap_or("")),
+                );
+                let all_trivial: Vec<&Vec<(bool, String)>> = reached_comps.iter().filter(|c| c.iter().all(|x| !x.0)).collect();
+                rec.check(
+                    all_trivial.is_empty(),
+                    "all-trivial-schedule@run_hooks",
+                    &format!("a tick that releases nothing new is explored: {:?}", all_trivial.first()),
+                );
+                let extra: Vec<&String> = reached.difference(&expected).collect();
+                rec.check(
+                    extra.len() == all_trivial.len(),
+                    "unspecified-schedule@run_hooks",
+                    &format!("reached but not a vector of allowed per-hook decisions: {:?}", extra.first()),
+                );
+            }
+        }
+        format!("n={n} set={}", reached.into_iter().collect::<Vec<_>>().join(" "))
+    }
+
+    /// decision space of hook `i` alone: the real hook, unforced, under the exhaustive driver
+    fn real_space(&self, i: usize) -> Vec<(bool, String)> {
+        let mut drv = exhaustive::Driver::default();
+        let mut out: Vec<(bool, String)> = vec![];
+        let mut n = 0;
+        while drv.step().is_continue() {
+            n += 1;
+            if n > 5000 {
+                break;
+            }
+            let mut c = self.fresh();
+            let mut obj = Object(&mut drv);
+            let hook = &mut c.hooks[i];
+            let r = catch(AssertUnwindSafe(|| {
+                let nt = hook.autonomous_decision(&mut Borrowed(&mut obj), false);
+                hook.release_decision(None);
+                nt
+            }));
+            if let Ok(nt) = r {
+                let o = c.slots[i].h.out.drain();
+                let post = snap(&c.slots[i].h);
+                out.push((nt, comp_str(c.slots[i].h.kind, nt, &o, &post)));
+            }
+        }
+        out.sort();
+        out.dedup();
+        out
+    }
+}
+
+struct Before {
+    cur: Vec<Option<bool>>,
+    can: Vec<bool>,
+    ready: Vec<bool>,
+    ks_ok: bool,
+}
+impl Before {
+    /// the state in which the scheduler calls `run_hooks`: every hook ready, some hook can release
+    /// (`SimTick::can_run`), well-formed keyed singletons
+    fn well_formed(&self) -> bool {
+        let n = self.cur.len();
+        self.ks_ok && self.ready.iter().all(|r| *r) && (0..n).any(|i| self.cur[i].unwrap_or(false) || self.can[i])
+    }
+}
+
+fn rest_str(kind: Kind, post: &Snap) -> String {
+    match (kind.keyed(), kind.two()) {
+        (false, false) => fmt_list(&post.q),
+        (false, true) => format!("{}+{}", fmt_list(&post.q), fmt_list(&post.q2)),
+        (true, false) => fmt_map(&post.m),
+        (true, true) => format!("{}+{}", fmt_map(&post.m), fmt_map(&post.m2)),
+    }
+}
+fn comp_str(kind: Kind, nt: bool, out: &[Msg], post: &Snap) -> String {
+    format!("{}/{}/{}", nt as u8, fmt_msgs(out), rest_str(kind, post))
+}
+
+/// The forcing discipline of `run_hooks`, restated against the property (not the model) and checked on
+/// the calls the real `run_hooks` made: first the hooks that cannot release take a trivial decision
+/// (never forced); then, in order, every still undecided hook decides and every hook releases; a
+/// call is forced iff nothing non-trivial has been decided so far in the tick (by ANY earlier hook)
+/// and it is the last undecided hook.
+fn check_call_sequence(rec: &mut Recorder, b: &Before, evs: &[Ev], what: &str) {
+    let n = b.cur.len();
+    let mut made = b.cur.iter().any(|c| *c == Some(true));
+    let nt_of = |i: usize| evs.iter().find_map(|e| match e { Ev::Auto(j, _, nt) if *j == i => Some(*nt), _ => None });
+    let mut expect: Vec<Ev> = vec![];
+    for i in 0..n {
+        if b.cur[i].is_none() && !b.can[i] {
+            expect.push(Ev::Auto(i, false, nt_of(i).unwrap_or(false)));
+        }
+    }
+    let undecided: Vec<usize> = (0..n).filter(|i| b.cur[*i].is_none() && b.can[*i]).collect();
+    for i in 0..n {
+        if b.cur[i].is_none() && b.can[i] {
+            let nt = nt_of(i).unwrap_or(false);
+            expect.push(Ev::Auto(i, !made && undecided.last() == Some(&i), nt));
+            made |= nt;
+        }
+        expect.push(Ev::Rel(i));
+    }
+    if expect != evs {
+        let same_shape = expect.len() == evs.len()
+            && expect.iter().zip(evs).all(|(a, b)| match (a, b) {
+                (Ev::Auto(i, _, _), Ev::Auto(j, _, _)) => i == j,
+                (Ev::Rel(i), Ev::Rel(j)) => i == j,
+                _ => false,
+            });
+        let sig = if same_shape { "forcing-flag@run_hooks" } else { "hook-call-sequence@run_hooks" };
+        rec.check(false, sig, &format!("{what}: calls {} expected {}", fmt_evs(evs), fmt_evs(&expect)));
+    } else {
+        rec.check(true, "forcing-flag@run_hooks", "");
+    }
+}
+
+// ---- the oracle's per-hook decision spaces (C37), written against the property statement
+
+fn prefixes(q: &[V]) -> Vec<(Vec<V>, Vec<V>)> {
+    (0..=q.len()).map(|c| (q[..c].to_vec(), q[c..].to_vec())).collect()
+}
+fn subsets(q: &[V]) -> Vec<(Vec<V>, Vec<V>)> {
+    (0..(1u32 << q.len()))
+        .map(|mask| {
+            let (mut s, mut r) = (vec![], vec![]);
+            for (i, v) in q.iter().enumerate() {
+                if mask & (1 << i) != 0 { s.push(*v) } else { r.push(*v) }
+            }
+            (s, r)
+        })
+        .collect()
+}
+/// all combinations of one option per key: (messages in key order, remaining map, any new)
+fn per_key_product(keys: &[K], opts: &[Vec<(Vec<V>, Vec<V>, bool)>]) -> Vec<(Vec<Msg>, KMapData, bool)> {
+    let mut acc: Vec<(Vec<Msg>, KMapData, bool)> = vec![(vec![], vec![], false)];
+    for (k, os) in keys.iter().zip(opts) {
+        let mut next = vec![];
+        for (msgs, m, any) in &acc {
+            for (rel, rest, new) in os {
+                let mut msgs = msgs.clone();
+                msgs.extend(rel.iter().map(|v| Msg::Kv(*k, *v)));
+                let mut m = m.clone();
+                m.push((*k, rest.clone()));
+                next.push((msgs, m, *any || *new));
+            }
+        }
+        acc = next;
+    }
+    acc
+}
+/// `None`: no specified space for this kind (TopLevel* hooks), or the hook is not in a state the
+/// simulator can produce
+fn spec_space(kind: Kind, pre: &Snap, last: Option<V>, last_k: &BTreeMap<K, V>) -> Option<Vec<(bool, String)>> {
+    let items = |v: &[V]| v.iter().map(|x| Msg::Item(*x)).collect::<Vec<_>>();
+    let q_post = |q: Vec<V>| Snap { q, ..Default::default() };
+    let keys: Vec<K> = pre.m.iter().map(|e| e.0).collect();
+    Some(match kind {
+        // every prefix size
+        Kind::StreamTotal => prefixes(&pre.q).into_iter().map(|(r, rest)| (!r.is_empty(), comp_str(kind, !r.is_empty(), &items(&r), &q_post(rest)))).collect(),
+        // every in-order sub-multiset
+        Kind::StreamNo => subsets(&pre.q).into_iter().map(|(r, rest)| (!r.is_empty(), comp_str(kind, !r.is_empty(), &items(&r), &q_post(rest)))).collect(),
+        // every combination of per-key prefixes / sub-multisets
+        Kind::KeyedTotal | Kind::KeyedNo => {
+            let opts: Vec<Vec<(Vec<V>, Vec<V>, bool)>> = pre
+                .m
+                .iter()
+                .map(|(_, q)| (if kind == Kind::KeyedTotal { prefixes(q) } else { subsets(q) }).into_iter().map(|(r, rest)| { let new = !r.is_empty(); (r, rest, new) }).collect())
+                .collect();
+            per_key_product(&keys, &opts)
+                .into_iter()
+                .map(|(msgs, m, any)| (any, comp_str(kind, any, &msgs, &Snap { m, ..Default::default() })))
+                .collect()
+        }
+        // every buffered version (dropping the older ones), or the unchanged snapshot again
+        Kind::Singleton => {
+            let mut v: Vec<(bool, String)> = (0..pre.q.len()).map(|i| (true, comp_str(kind, true, &items(&pre.q[i..=i]), &q_post(pre.q[i + 1..].to_vec())))).collect();
+            if let Some(l) = last {
+                v.push((false, comp_str(kind, false, &items(&[l]), &q_post(pre.q.clone()))));
+            }
+            if v.is_empty() {
+                return None;
+            }
+            v
+        }
+        // the newest value of the fold, or the unchanged one again when the fold produced nothing
+        Kind::Passthrough => match (pre.q.last(), last) {
+            (Some(x), _) => vec![(true, comp_str(kind, true, &items(&[*x]), &q_post(vec![])))],
+            (None, Some(l)) => vec![(false, comp_str(kind, false, &items(&[l]), &q_post(vec![])))],
+            (None, None) => return None,
+        },
+        // per key: unchanged again (released before) / withheld (never released) / a buffered version
+        Kind::KeyedSingleton => {
+            let mut opts: Vec<Vec<(Vec<V>, Vec<V>, bool)>> = vec![];
+            for (k, q) in &pre.m {
+                let mut o: Vec<(Vec<V>, Vec<V>, bool)> = (0..q.len()).map(|i| (vec![q[i]], q[i + 1..].to_vec(), true)).collect();
+                match last_k.get(k) {
+                    Some(l) => o.push((vec![*l], q.clone(), false)),
+                    None if q.is_empty() => return None,
+                    None => o.push((vec![], q.clone(), false)),
+                }
+                opts.push(o);
+            }
+            per_key_product(&keys, &opts)
+                .into_iter()
+                .map(|(msgs, m, any)| (any, comp_str(kind, any, &msgs, &Snap { m, ..Default::default() })))
+                .collect()
+        }
+        _ => return None,
+    })
 }
 
 fn keyed_singleton_wf(slot: &Slot) -> bool {
@@ -1125,11 +1520,157 @@ fn gen_case_c36(idx: u64, g: &mut Gen, rec: &mut Recorder, cases: u64) {
     }
 }
 
-fn gen_case_c37(idx: u64, g: &mut Gen, rec: &mut Recorder) {
+const TICK_KINDS: [Kind; 7] = [Kind::StreamTotal, Kind::StreamNo, Kind::KeyedTotal, Kind::KeyedNo, Kind::Singleton, Kind::Passthrough, Kind::KeyedSingleton];
+const TL_KINDS: [Kind; 6] = [Kind::TlOrder, Kind::TlFold, Kind::TlKeyedOrder, Kind::TlPartial, Kind::TlMerge, Kind::TlKeyedMerge];
+
+/// the ops that build a runnable tick of `nh` hooks of mixed kinds with pending input (queues / keys up
+/// to `cap`): hook 0 always has pending input and no decision; later hooks may be empty, may have
+/// released a snapshot in an earlier tick (`auto 1` + `rel`: the hook has a last released value, so
+/// "unchanged" is one of its decisions) and may already carry a manual decision (`auto 0` without `rel`)
+fn tick_setup(g: &mut Gen, nh: usize, cap: usize) -> Vec<Op> {
+    let mut ops = vec![];
+    let cap = cap.max(1);
+    let kcap = cap.min(2);
+    for i in 0..nh {
+        let kind = if g.rng.chance(4, 5) { *g.rng.pick(&TICK_KINDS) } else { *g.rng.pick(&TL_KINDS) };
+        let snapshot = matches!(kind, Kind::Singleton | Kind::Passthrough | Kind::KeyedSingleton);
+        let empty = i > 0 && g.rng.chance(1, 6);
+        let size = if empty { 0 } else { 1 + g.rng.below(cap as u64) as usize };
+        let primed = snapshot && (empty || g.rng.chance(1, 2));
+        let nkeys = 1 + g.rng.below(kcap as u64) as usize;
+        let (mut q, mut q2, mut m, mut m2) = (vec![], vec![], vec![], vec![]);
+        if primed {
+            if kind.keyed() {
+                m = g.map(nkeys, kcap, false);
+            } else {
+                let n0 = 1 + g.rng.below(2) as usize;
+                q = g.vals(n0);
+            }
+            let keys: Vec<K> = m.iter().map(|e| e.0).collect();
+            ops.push(Op::New { kind, q, q2, m, m2 });
+            // (keyed: the all-zero tape releases the oldest version of every key, so that every key has a
+            // last released value and may run empty afterwards)
+            let t = g.tape();
+            ops.push(Op::Auto { i, force: true, tape: if kind.keyed() { vec![] } else { t } });
+            ops.push(Op::Rel(i));
+            if kind.keyed() {
+                let entries: KMapData = keys
+                    .into_iter()
+                    .enumerate()
+                    .map(|(j, k)| {
+                        let n = if empty { 0 } else if j == 0 { 1 + g.rng.below(kcap as u64) as usize } else { g.rng.below(kcap as u64 + 1) as usize };
+                        (k, g.vals(n))
+                    })
+                    .collect();
+                ops.push(Op::Set { i, second: false, entries });
+            } else if size > 0 {
+                ops.push(Op::Push { i, second: false, items: g.vals(size) });
+            }
+        } else {
+            if kind.keyed() {
+                if empty {
+                    let nk = if kind == Kind::KeyedSingleton { 0 } else { g.rng.below(2) as usize };
+                    m = g.keys(nk).into_iter().map(|k| (k, vec![])).collect();
+                } else {
+                    m = g.map(nkeys, kcap, false);
+                    if kind.two() && g.rng.chance(1, 2) {
+                        m2 = g.map(1, kcap, false);
+                    }
+                }
+            } else {
+                q = g.vals(size);
+                if kind.two() && !empty {
+                    let n2 = g.rng.below(kcap as u64 + 1) as usize;
+                    q2 = g.vals(n2);
+                }
+            }
+            ops.push(Op::New { kind, q, q2, m, m2 });
+        }
+        // a manual decision taken before run_hooks (an unprimed snapshot hook would stop being ready)
+        if i > 0 && g.rng.chance(1, 8) && (!snapshot || primed) {
+            ops.push(Op::Auto { i, force: false, tape: g.tape() });
+        }
+    }
+    ops
+}
+
+/// number of decision vectors of the tick built by `ops` (product of the per-hook spaces)
+fn tick_space_size(ops: &[Op]) -> u64 {
+    let mut c = Case::new();
+    let mut scratch = Recorder::new("");
+    for op in ops {
+        c.exec(op, &mut scratch);
+    }
+    if c.dead {
+        return u64::MAX;
+    }
+    (0..c.hooks.len())
+        .map(|i| {
+            if c.hooks[i].current_decision().is_some() {
+                1
+            } else {
+                let slot = &c.slots[i];
+                spec_space(slot.h.kind, &snap(&slot.h), slot.last, &slot.last_k).unwrap_or_else(|| c.real_space(i)).len().max(1) as u64
+            }
+        })
+        .product()
+}
+
+/// C37 on whole ticks: 2, 3 and 4 pending hooks of mixed kinds; `enumrun` (the real run_hooks under the
+/// real exhaustive driver, set of decision vectors) and then every execution again as `xrun <tape>`
+/// (the same tape on the real run_hooks and on the model: outputs, driver calls, forcing flags)
+fn gen_case_c37_tick(idx: u64, tick_no: u64, g: &mut Gen, rec: &mut Recorder) {
+    let nh = 2 + (tick_no % 3) as usize;
+    let ops = if tick_no < 6 {
+        // canonical small ticks, in every run: nh batches with one or two pending items each
+        let nh = 3 + (tick_no % 2) as usize;
+        (0..nh)
+            .map(|i| {
+                let kind = [Kind::StreamTotal, Kind::StreamNo, Kind::KeyedTotal][((tick_no / 2) as usize + if tick_no >= 2 { i } else { 0 }) % 3];
+                let n = 1 + ((tick_no as usize + i) % 2);
+                if kind.keyed() {
+                    let m = g.map(1, n, false);
+                    Op::New { kind, q: vec![], q2: vec![], m, m2: vec![] }
+                } else {
+                    Op::New { kind, q: g.vals(n), q2: vec![], m: vec![], m2: vec![] }
+                }
+            })
+            .collect()
+    } else {
+        let mut cap = if nh == 2 { 3 } else { 2 };
+        loop {
+            let ops = tick_setup(g, nh, cap);
+            if tick_space_size(&ops) <= 400 {
+                break ops;
+            }
+            cap = cap.saturating_sub(1).max(1);
+        }
+    };
     let mut case = Case::new();
-    let kind = ALL_KINDS[(idx % 13) as usize];
-    let force = (idx / 13) % 2 == 1;
-    let size = ((idx / 26) % 5) as usize;
+    let nh = ops.iter().filter(|o| matches!(o, Op::New { .. })).count();
+    rec.case(idx, &format!("tick hooks={nh}"));
+    run_ops(&mut case, rec, &ops);
+    for i in 0..nh {
+        run_ops(&mut case, rec, &[Op::State(i), Op::Can(i)]);
+    }
+    run_ops(&mut case, rec, &[Op::CanRun, Op::EnumRun]);
+    let tapes = std::mem::take(&mut case.tapes);
+    rec.count(&format!("tick:undecided-hooks={}", (0..nh).filter(|i| case.hooks[*i].current_decision().is_none() && case.hooks[*i].can_make_nontrivial_decision()).count()));
+    for tape in tapes.into_iter().take(250) {
+        run_ops(&mut case, rec, &[Op::XRun { tape }]);
+    }
+}
+
+fn gen_case_c37(idx: u64, g: &mut Gen, rec: &mut Recorder) {
+    // every fifth case is a whole tick; the others enumerate one hook (kind x force x size by index)
+    if idx % 5 == 4 {
+        return gen_case_c37_tick(idx, idx / 5, g, rec);
+    }
+    let eidx = idx - (idx + 1) / 5;
+    let mut case = Case::new();
+    let kind = ALL_KINDS[(eidx % 13) as usize];
+    let force = (eidx / 13) % 2 == 1;
+    let size = ((eidx / 26) % 5) as usize;
     rec.case(idx, &format!("enum kind={} force={} size={size}", kind.name(), force as u8));
     let (mut q, mut q2, mut m, mut m2) = (vec![], vec![], vec![], vec![]);
     if kind.keyed() {
